@@ -325,6 +325,249 @@ let ip6_value args =
 let ip6_bytes = gen_bytes ip6_canon ip6_from_slice ip6_read (fun h -> Some (ip6_to_bytes h))
     (fun h -> Some (ip6_write [] h)) ip6_header_len (fun h -> ones (ip6_header_len h))
 
+(* write_to_slice into a slice of hl + 3 bytes 0xa5: print the written part (as the harness's wts! macro) *)
+let wts_str (r : (bytes * bytes) res) : string =
+  match r with
+  | Ok (after, rest) ->
+    let n = List.length after - List.length rest in
+    hex_of_bytes (List.filteri (fun i _ -> i < n) after)
+  | Err _ -> "dead"
+let a5 (n : int) : bytes = List.init n (fun _ -> n_of_int 0xa5)
+(* variants of gen_value / gen_bytes with a write_to_slice column and an extra decoder (from_bytes) *)
+let gen_value_ws canon (tb : bytes) (w : bytes) (ws : string) (hl : n) fs rd (eqf : 'a -> bool) (spec : bytes)
+    (vcanon : string) (trail : bytes) (fb : string) : string =
+  let input = tb @ trail in
+  let (d, dh) = dec_pair canon fs input in
+  let (r, _) = dec_pair canon rd input in
+  let eq = match dh with Some x -> b01 (eqf x) | None -> "-" in
+  Printf.sprintf "v=%s tb=%s w=%s ws=%s hl=%s d=%s eq=%s rd=%s fb=%s | %s" vcanon (hex_of_bytes tb) (hex_of_bytes w) ws
+    (s_of_n hl) d eq r fb (hex_of_bytes spec)
+let gen_bytes_ws canon fs rd (tbf : 'a -> bytes) (wf : 'a -> bytes) (wsf : 'a -> string) (hlf : 'a -> n)
+    (bs : bytes) : string =
+  match fs bs with
+  | Err _ -> Printf.sprintf "err rd=%s | -" (match rd bs with Ok _ -> "ok" | Err _ -> "err")
+  | Ok (h, rest) ->
+    let used = List.length bs - List.length rest in
+    let re = tbf h in
+    let (d2, _) = dec_pair canon fs (re @ rest) in
+    let (r, _) = dec_pair canon rd bs in
+    Printf.sprintf "ok used=%d v=%s re=%s w=%s ws=%s hl=%s d2=%s rd=%s | %s" used (canon h) (hex_of_bytes re)
+      (hex_of_bytes (wf h)) (wsf h) (s_of_n (hlf h)) d2 r (hex_of_bytes (ones (hlf h)))
+
+(* Ethernet2Header: canon = destination hex,source hex,ether_type *)
+let eth_canon (h : ethernet2Header) : string =
+  Printf.sprintf "%s,%s,%s" (hex_of_bytes h.eth_destination) (hex_of_bytes h.eth_source) (s_of_n h.eth_ether_type)
+let eth_ws h = wts_str (eth_write_to_slice (a5 17) h)
+let eth_value args =
+  match args with
+  | [dst; src; et; trail] ->
+    let h = { eth_source = bytes_of_hex src; eth_destination = bytes_of_hex dst; eth_ether_type = n_of_s et } in
+    if not (wf_eth h) then "noval | -" else
+    let fb = match eth_from_bytes (eth_to_bytes h) with Ok x -> eth_canon x | Err _ -> "err" in
+    gen_value_ws eth_canon (eth_to_bytes h) (eth_write [] h) (eth_ws h) (eth_header_len h) eth_from_slice eth_read
+      (fun x -> x = h) (eth_layout h.eth_destination h.eth_source h.eth_ether_type)
+      (eth_canon h) (bytes_of_hex trail) fb
+  | _ -> failwith "eth value args"
+let eth_bytes = gen_bytes_ws eth_canon eth_from_slice eth_read eth_to_bytes (eth_write []) eth_ws eth_header_len
+
+(* SingleVlanHeader: canon = pcp,dei,vlan_id,ether_type *)
+let vl_canon (h : singleVlanHeader) : string =
+  Printf.sprintf "%s,%s,%s,%s" (s_of_n h.vl_pcp) (b01 h.vl_drop_eligible_indicator) (s_of_n h.vl_vlan_id)
+    (s_of_n h.vl_ether_type)
+let vl_value args =
+  match args with
+  | [pcp; dei; vid; et; trail] ->
+    let h = { vl_pcp = n_of_s pcp; vl_drop_eligible_indicator = (dei = "1"); vl_vlan_id = n_of_s vid;
+              vl_ether_type = n_of_s et } in
+    if not (wf_vl h) then "noval | -" else
+    let fb = match vl_from_bytes (vl_to_bytes h) with Ok x -> vl_canon x | Err _ -> "err" in
+    gen_value_ws vl_canon (vl_to_bytes h) (vl_write [] h) "-" (vl_header_len h) vl_from_slice vl_read
+      (fun x -> x = h) (vlan_layout h.vl_pcp h.vl_drop_eligible_indicator h.vl_vlan_id h.vl_ether_type)
+      (vl_canon h) (bytes_of_hex trail) fb
+  | _ -> failwith "vlan value args"
+let vl_bytes = gen_bytes_ws vl_canon vl_from_slice vl_read vl_to_bytes (vl_write []) (fun _ -> "-") vl_header_len
+
+(* LinuxSllHeader: canon = packet_type,arp_hrd_type,sender_address_valid_length,address hex,kind,value *)
+let sll_kind = function
+  | SllIgnored v -> ("ign", v) | SllNetlink v -> ("nl", v) | SllGre v -> ("gre", v)
+  | SllEtherType v -> ("et", v) | SllNonstd v -> ("ns", v)
+let sll_canon (h : linuxSllHeader) : string =
+  let (k, v) = sll_kind h.sll_protocol_type in
+  Printf.sprintf "%s,%s,%s,%s,%s,%s" (s_of_n h.sll_packet_type) (s_of_n h.sll_arp_hrd_type)
+    (s_of_n h.sll_sender_address_valid_length) (hex_of_bytes h.sll_sender_address) k (s_of_n v)
+let sll_ws h = wts_str (sll_write_to_slice (a5 19) h)
+let sll_value args =
+  match args with
+  | [pt; hrd; savl; addr; kind; v; trail] ->
+    let v = n_of_s v in
+    let p = match kind with
+      | "ign" -> Some (SllIgnored v) | "nl" -> Some (SllNetlink v) | "gre" -> Some (SllGre v)
+      | "et" -> Some (SllEtherType v)
+      | _ -> (match sll_nonstd_try_from v with Some x -> Some (SllNonstd x) | None -> None) in
+    (match p with
+     | None -> "noval | -"
+     | Some p ->
+       let h = { sll_packet_type = n_of_s pt; sll_arp_hrd_type = n_of_s hrd;
+                 sll_sender_address_valid_length = n_of_s savl; sll_sender_address = bytes_of_hex addr;
+                 sll_protocol_type = p } in
+       if not (sll_in_range h) then "noval | -" else
+       let fb = match sll_from_bytes (sll_to_bytes h) with Ok x -> sll_canon x | Err _ -> "err" in
+       gen_value_ws sll_canon (sll_to_bytes h) (sll_write [] h) (sll_ws h) (sll_header_len h) sll_from_slice sll_read
+         (fun x -> x = h)
+         (sll_layout h.sll_packet_type h.sll_arp_hrd_type h.sll_sender_address_valid_length h.sll_sender_address
+            (sll_protocol_u16 h.sll_protocol_type))
+         (sll_canon h) (bytes_of_hex trail) fb)
+  | _ -> failwith "sll value args"
+let sll_bytes = gen_bytes_ws sll_canon sll_from_slice sll_read sll_to_bytes (sll_write []) sll_ws sll_header_len
+
+(* ArpPacket: canon = hw type,proto type,hw size,proto size,operation,4 address slices hex *)
+let arp_canon (h : arpPacket) : string =
+  Printf.sprintf "%s,%s,%s,%s,%s,%s,%s,%s,%s" (s_of_n h.arp_hw_addr_type) (s_of_n h.arp_proto_addr_type)
+    (s_of_n h.arp_hw_addr_size) (s_of_n h.arp_proto_addr_size) (s_of_n h.arp_operation)
+    (hexo (arp_sender_hw_addr h)) (hexo (arp_sender_protocol_addr h)) (hexo (arp_target_hw_addr h))
+    (hexo (arp_target_protocol_addr h))
+let arp_dec_fs (bs : bytes) : string * arpPacket option =
+  match arp_from_slice bs with
+  | Ok h -> (arp_canon h ^ "/" ^ rest_after bs (arp_packet_len h), Some h)
+  | Err _ -> ("err", None)
+let arp_value args =
+  match args with
+  | [hat; pat; op; sh; sp; th; tp; pre; trail] ->
+    (* pre = "-" : new(..); pre = "a,b": new(.., a/b bytes of 0xaa) then set_hw_addrs, set_protocol_addrs *)
+    let mk n = List.init n (fun _ -> n_of_int 0xaa) in
+    let (sh, sp, th, tp) = (bytes_of_hex sh, bytes_of_hex sp, bytes_of_hex th, bytes_of_hex tp) in
+    let h = if pre = "-" then arp_new (n_of_s hat) (n_of_s pat) (n_of_s op) sh sp th tp
+      else (match String.split_on_char ',' pre with
+          | [a; b] ->
+            (match arp_new (n_of_s hat) (n_of_s pat) (n_of_s op) (mk (int_of_string a)) (mk (int_of_string b))
+                     (mk (int_of_string a)) (mk (int_of_string b)) with
+             | None -> None
+             | Some h0 -> (match arp_set_hw_addrs h0 sh th with
+                 | None -> None
+                 | Some h1 -> arp_set_protocol_addrs h1 sp tp))
+          | _ -> failwith "arp pre") in
+    (match h with
+     | None -> "noval | -"
+     | Some h ->
+       if not (wf_arp h) then "noval | -" else
+       let tb = arp_to_bytes h in
+       let enc = match tb with Some b -> b | None -> [] in
+       let input = enc @ bytes_of_hex trail in
+       let (d, dh) = arp_dec_fs input in
+       let (r, _) = dec_pair arp_canon arp_read input in
+       let eq = match dh with Some x -> b01 (arp_eqb x h) | None -> "-" in
+       let get = function Some x -> x | None -> [] in
+       Printf.sprintf "v=%s tb=%s w=%s ws=- hl=%s d=%s eq=%s rd=%s | %s" (arp_canon h) (hexo tb)
+         (hexo (arp_write [] h)) (s_of_n (arp_packet_len h)) d eq r
+         (hex_of_bytes (arp_layout h.arp_hw_addr_type h.arp_proto_addr_type h.arp_operation
+                          (get (arp_sender_hw_addr h)) (get (arp_sender_protocol_addr h))
+                          (get (arp_target_hw_addr h)) (get (arp_target_protocol_addr h)))))
+  | _ -> failwith "arp value args"
+let arp_bytes (bs : bytes) =
+  match arp_from_slice bs with
+  | Err _ -> Printf.sprintf "err rd=%s | -" (match arp_read bs with Ok _ -> "ok" | Err _ -> "err")
+  | Ok h ->
+    let used = int_of_n (arp_packet_len h) in
+    let re = arp_to_bytes h in
+    let enc = match re with Some b -> b | None -> [] in
+    let rest = List.filteri (fun i _ -> i >= used) bs in
+    let (d2, _) = arp_dec_fs (enc @ rest) in
+    let (r, _) = dec_pair arp_canon arp_read bs in
+    Printf.sprintf "ok used=%d v=%s re=%s w=%s ws=- hl=%s d2=%s rd=%s | %s" used (arp_canon h) (hexo re)
+      (hexo (arp_write [] h)) (s_of_n (arp_packet_len h)) d2 r (hex_of_bytes (ones (arp_packet_len h)))
+
+(* ArpEthIpv4Packet: canon = operation,sender mac,sender ip,target mac,target ip *)
+let ae_canon (v : arpEthIpv4Packet) : string =
+  Printf.sprintf "%s,%s,%s,%s,%s" (s_of_n v.ae_operation) (hex_of_bytes v.ae_sender_mac)
+    (hex_of_bytes v.ae_sender_ipv4) (hex_of_bytes v.ae_target_mac) (hex_of_bytes v.ae_target_ipv4)
+let ae_dec (bs : bytes) : string * arpEthIpv4Packet option =
+  match arp_from_slice bs with
+  | Err _ -> ("err", None)
+  | Ok p ->
+    (match arp_try_eth_ipv4 p with
+     | Ok v -> (ae_canon v ^ "/" ^ rest_after bs (arp_packet_len p), Some v)
+     | Err _ -> ("err", None))
+let ae_w (v : arpEthIpv4Packet) : string =
+  match ae_to_arp_packet v with Some p -> hexo (arp_to_bytes p) | None -> "UB"
+let ae_value args =
+  match args with
+  | [op; sm; si; tm; ti; trail] ->
+    let v = { ae_operation = n_of_s op; ae_sender_mac = bytes_of_hex sm; ae_sender_ipv4 = bytes_of_hex si;
+              ae_target_mac = bytes_of_hex tm; ae_target_ipv4 = bytes_of_hex ti } in
+    if not (wf_ae v) then "noval | -" else
+    let tb = ae_to_bytes v in
+    let (d, dh) = ae_dec (tb @ bytes_of_hex trail) in
+    let eq = match dh with Some x -> b01 (x = v) | None -> "-" in
+    Printf.sprintf "v=%s tb=%s w=%s ws=- hl=28 d=%s eq=%s rd=- | %s" (ae_canon v) (hex_of_bytes tb) (ae_w v) d eq
+      (hex_of_bytes (arp_layout (n_of_int 1) (n_of_int 2048) v.ae_operation v.ae_sender_mac v.ae_sender_ipv4
+                       v.ae_target_mac v.ae_target_ipv4))
+  | _ -> failwith "arpeth value args"
+let ae_bytes (bs : bytes) =
+  match ae_dec bs with
+  | (_, None) -> "err rd=- | -"
+  | (_, Some v) ->
+    let re = ae_to_bytes v in
+    let rest = List.filteri (fun i _ -> i >= 28) bs in
+    let (d2, _) = ae_dec (re @ rest) in
+    Printf.sprintf "ok used=28 v=%s re=%s w=%s ws=- hl=28 d2=%s rd=- | %s" (ae_canon v) (hex_of_bytes re) (ae_w v) d2
+      (hex_of_bytes (ones (n_of_int 28)))
+
+(* Ipv4Extensions: the value is (start number, extensions, final number); encode = [start] ++ write(start);
+   canon = start,final,nh:spi:seq:icv | - *)
+let x4_canon ((start, e, n) : n * ipv4Extensions * n) : string =
+  Printf.sprintf "%s,%s,%s" (s_of_n start) (s_of_n n)
+    (match x4_auth e with
+     | Some h -> Printf.sprintf "%s:%s:%s:%s" (s_of_n h.ah_next_header) (s_of_n h.ah_spi) (s_of_n h.ah_sequence_number)
+                   (hexo (ah_raw_icv h))
+     | None -> "-")
+let x4_enc (start : n) (e : ipv4Extensions) : bytes =
+  start :: (match x4_write [] e start with Ok b -> b | Err _ -> [n_of_int 0xde; n_of_int 0xad])
+let x4_dec (f : bytes -> n -> ((ipv4Extensions * n) * bytes) res) (bs : bytes) : string * (n * ipv4Extensions * n) option =
+  match bs with
+  | [] -> ("err", None)
+  | start :: tl ->
+    (match f tl start with
+     | Ok ((e, n), rest) -> (x4_canon (start, e, n) ^ "/" ^ ilen rest, Some (start, e, n))
+     | Err _ -> ("err", None))
+let x4_fs tl start = x4_from_slice start tl
+let x4_value args =
+  match args with
+  | [start; auth; trail] ->
+    let start = n_of_s start in
+    if int_of_n start > 255 then "noval | -" else
+    let a = if auth = "-" then Some None else
+        (match String.split_on_char ':' auth with
+         | [nh; spi; sq; icv] ->
+           (match ah_new (n_of_s nh) (n_of_s spi) (n_of_s sq) (bytes_of_hex icv) with
+            | Some h -> if wf_ah h then Some (Some h) else None
+            | None -> None)
+         | _ -> failwith "ext4 auth") in
+    (match a with
+     | None -> "noval | -"
+     | Some a ->
+       let e : ipv4Extensions = a in   (* single-field record: extracted as its field *)
+       let fin = x4_final start e in
+       let tb = x4_enc start e in
+       let input = tb @ bytes_of_hex trail in
+       let (d, dh) = x4_dec x4_fs input in
+       let (r, _) = x4_dec x4_read input in
+       let eq = match dh with Some (s2, e2, n2) -> b01 (s2 = start && x4_eqb e2 e && n2 = fin) | None -> "-" in
+       Printf.sprintf "v=%s tb=%s w=%s ws=- hl=%s d=%s eq=%s rd=%s | -" (x4_canon (start, e, fin)) (hex_of_bytes tb)
+         (hex_of_bytes tb) (string_of_int (1 + int_of_n (x4_header_len e))) d eq r)
+  | _ -> failwith "ext4 value args"
+let x4_bytes (bs : bytes) =
+  match x4_dec x4_fs bs with
+  | (_, None) -> Printf.sprintf "err rd=%s | -" (match x4_dec x4_read bs with (_, Some _) -> "ok" | _ -> "err")
+  | (_, Some (start, e, n)) ->
+    let hl = 1 + int_of_n (x4_header_len e) in
+    let rest = List.filteri (fun i _ -> i >= hl) bs in
+    let used = List.length bs - List.length rest in
+    let re = x4_enc start e in
+    let (d2, _) = x4_dec x4_fs (re @ rest) in
+    let (r, _) = x4_dec x4_read bs in
+    Printf.sprintf "ok used=%d v=%s re=%s w=%s ws=- hl=%d d2=%s rd=%s | %s" used (x4_canon (start, e, n))
+      (hex_of_bytes re) (hex_of_bytes re) hl d2 r (hex_of_bytes (n_of_int 255 :: x4_keep_mask e))
+
 let run_linknet (line : string) : string option =
   match Conv.split_ws line with
   | "v" :: "macsec" :: args -> Some (mac_value args)
@@ -335,6 +578,18 @@ let run_linknet (line : string) : string option =
   | ["b"; "rawext"; h] -> Some (rx_bytes (bytes_of_hex h))
   | "v" :: "ipv6" :: args -> Some (ip6_value args)
   | ["b"; "ipv6"; h] -> Some (ip6_bytes (bytes_of_hex h))
+  | "v" :: "eth" :: args -> Some (eth_value args)
+  | ["b"; "eth"; h] -> Some (eth_bytes (bytes_of_hex h))
+  | "v" :: "vlan" :: args -> Some (vl_value args)
+  | ["b"; "vlan"; h] -> Some (vl_bytes (bytes_of_hex h))
+  | "v" :: "sll" :: args -> Some (sll_value args)
+  | ["b"; "sll"; h] -> Some (sll_bytes (bytes_of_hex h))
+  | "v" :: "arp" :: args -> Some (arp_value args)
+  | ["b"; "arp"; h] -> Some (arp_bytes (bytes_of_hex h))
+  | "v" :: "arpeth" :: args -> Some (ae_value args)
+  | ["b"; "arpeth"; h] -> Some (ae_bytes (bytes_of_hex h))
+  | "v" :: "ext4" :: args -> Some (x4_value args)
+  | "b" :: "ext4" :: h :: _ -> Some (x4_bytes (bytes_of_hex h))
   | _ -> None
 (* ---- end extend-c08a ---- *)
 
